@@ -5,9 +5,12 @@
    decode_varint regenerated from the source on every run (Gen/PageConsts, LeafLayout, InteriorLayout,
    HnswLayout, Varint); tied to the code by the correspondence run (Corr/C23.v).
    `value_or_error r` is the property's wording: r is Ok _ or Err - not Panic, not out of fuel.
-   Where the code does panic on corrupted bytes the theorem is an equivalence "panics exactly on the
-   class ..." (the classes of the recorded findings F-C23-1..7), the property is proved outside the
-   class, and a `..._refuted` theorem exhibits the witness, which the harness runs on the real code.
+   The models follow /repo as repaired by c8c46cc, 7292838, 4d4f2e6, 5281222 (findings F-C23-1..7, fixed): the
+   page and array theorems are now totality theorems for everything the constructors accept.  The
+   `*_panic_iff_unchecked` theorems keep the exact condition under which the (unchanged) slot accessors would
+   panic on a byte string that did NOT go through from_page, and the `*_former_witnesses` theorems show what the
+   recorded witnesses do now; the harness re-runs them on the real code on every check.  Still refuted:
+   RecordView (F-C23-14, `record_view_refuted`).
    Theorems of colleagues' models that cover other decoders of the property are restated at the end. *)
 From Coq Require Import ZArith List Bool.
 From TV Require Import Lib.MachInt Gen.PageConsts Gen.Varint
@@ -51,108 +54,94 @@ Proof. exact validate_page_total_l. Qed.
 Theorem node_from_page_total : forall want d, value_or_error (node_from_page want d).
 Proof. exact node_from_page_total_l. Qed.
 
-(* ================================================================ leaf pages: every 16 KiB page, every index *)
-Theorem leaf_slot_at_panics_iff : forall d i, leaf_from_page d = Ok tt -> bytes_ok d = true -> 0 <= i ->
-  (leaf_slot_at d i = Panic <-> leaf_slot_oob d i = true).
-Proof. exact leaf_slot_at_panic_iff_l. Qed.
-Theorem leaf_key_at_panics_iff : forall d i, leaf_from_page d = Ok tt -> bytes_ok d = true -> 0 <= i ->
-  (leaf_key_at d i = Panic <-> leaf_slot_oob d i = true).
-Proof. exact leaf_key_at_panic_iff_l. Qed.
-Theorem leaf_value_len_at_panics_iff : forall d i, leaf_from_page d = Ok tt -> bytes_ok d = true -> 0 <= i ->
-  (leaf_value_len_at d i = Panic <-> leaf_slot_oob d i = true).
-Proof. exact leaf_value_len_at_panic_iff_l. Qed.
-Theorem leaf_value_at_panics_iff : forall d i, leaf_from_page d = Ok tt -> bytes_ok d = true -> 0 <= i ->
-  (leaf_value_at d i = Panic <-> leaf_slot_oob d i = true \/ leaf_value_ovf d i = true).
-Proof. exact leaf_value_at_panic_iff_l. Qed.
-(* the property outside the two classes *)
+(* LeafNode / InteriorNode::from_page (since c8c46cc with check_slot_geometry) *)
+Theorem btree_from_page_total : forall want cs ss d, value_or_error (btree_from_page want cs ss d).
+Proof. exact btree_from_page_total_l. Qed.
+
+(* ================================================================ leaf pages: every page from_page accepts, every index *)
 Theorem leaf_accessors_total : forall d i, leaf_from_page d = Ok tt -> bytes_ok d = true -> 0 <= i ->
-  leaf_slot_oob d i = false ->
-  value_or_error (leaf_slot_at d i) /\ value_or_error (leaf_key_at d i) /\ value_or_error (leaf_value_len_at d i) /\
-  (leaf_value_ovf d i = false -> value_or_error (leaf_value_at d i)).
+  value_or_error (leaf_slot_at d i) /\ value_or_error (leaf_key_at d i) /\
+  value_or_error (leaf_value_len_at d i) /\ value_or_error (leaf_value_at d i).
 Proof. exact leaf_accessors_total_l. Qed.
 (* "never reads out of bounds": what key_at / value_at return is a slice of the page *)
 Theorem leaf_results_inside_page : forall d i, blen d = PAGE_SIZE -> bytes_ok d = true -> 0 <= i ->
   (forall k, leaf_key_at d i = Ok k -> exists lo len, 0 <= lo /\ 0 <= len /\ lo + len <= PAGE_SIZE /\ k = bslice d lo (lo + len)) /\
   (forall v, leaf_value_at d i = Ok v -> exists lo len, 0 <= lo /\ 0 <= len /\ lo + len <= PAGE_SIZE /\ v = bslice d lo (lo + len)).
 Proof. exact leaf_results_inside_l. Qed.
-Theorem leaf_accessors_refuted :
-  leaf_from_page leaf_witness_oob = Ok tt /\ bytes_ok leaf_witness_oob = true /\
-  leaf_slot_at leaf_witness_oob 2045 = Panic /\ leaf_key_at leaf_witness_oob 2045 = Panic /\
-  leaf_value_at leaf_witness_oob 2045 = Panic /\ leaf_value_len_at leaf_witness_oob 2045 = Panic /\
+(* why from_page has to check: on ANY 16 KiB byte string the (unchanged) slot accessors take their Panic branch
+   exactly when the slot announced by the stored cell_count lies beyond the page *)
+Theorem leaf_accessors_panic_iff_unchecked : forall d i, blen d = PAGE_SIZE -> bytes_ok d = true -> 0 <= i ->
+  (leaf_slot_at d i = Panic <-> leaf_slot_oob d i = true) /\ (leaf_key_at d i = Panic <-> leaf_slot_oob d i = true) /\
+  (leaf_value_len_at d i = Panic <-> leaf_slot_oob d i = true) /\ (leaf_value_at d i = Panic <-> leaf_slot_oob d i = true).
+Proof. exact leaf_accessors_panic_iff_unchecked_l. Qed.
+(* the witnesses of the former findings F-C23-1 / F-C23-2: rejected by from_page / an error *)
+Theorem leaf_former_witnesses :
+  bytes_ok leaf_witness_oob = true /\ leaf_slot_at leaf_witness_oob 2045 = Panic /\
+  leaf_from_page leaf_witness_oob = Err /\
   leaf_from_page leaf_witness_ovf = Ok tt /\ bytes_ok leaf_witness_ovf = true /\
-  leaf_slot_oob leaf_witness_ovf 0 = false /\ leaf_key_at leaf_witness_ovf 0 = Ok [1; 2; 3; 4] /\
-  leaf_value_len_at leaf_witness_ovf 0 = Ok 18446744073709551615 /\ leaf_value_at leaf_witness_ovf 0 = Panic.
-Proof. exact leaf_accessors_refuted_l. Qed.
+  leaf_key_at leaf_witness_ovf 0 = Ok [1; 2; 3; 4] /\
+  leaf_value_len_at leaf_witness_ovf 0 = Ok 18446744073709551615 /\ leaf_value_at leaf_witness_ovf 0 = Err.
+Proof. exact leaf_former_witnesses_l. Qed.
 
 (* ================================================================ interior pages *)
-Theorem interior_slot_at_panics_iff : forall d i, interior_from_page d = Ok tt -> bytes_ok d = true -> 0 <= i ->
-  (interior_slot_at d i = Panic <-> interior_slot_oob d i = true).
-Proof. exact interior_slot_at_panic_iff_l. Qed.
-Theorem interior_key_at_panics_iff : forall d i, interior_from_page d = Ok tt -> bytes_ok d = true -> 0 <= i ->
-  (interior_key_at d i = Panic <-> interior_slot_oob d i = true).
-Proof. exact interior_key_at_panic_iff_l. Qed.
-(* the binary search terminates within its 17 rounds on EVERY page and key ("never loops forever") *)
-Theorem find_child_terminates : forall d key, interior_from_page d = Ok tt -> bytes_ok d = true ->
-  find_child d key <> Fuel.
+Theorem interior_accessors_total : forall d i key, interior_from_page d = Ok tt -> bytes_ok d = true -> 0 <= i ->
+  value_or_error (interior_slot_at d i) /\ value_or_error (interior_key_at d i) /\ value_or_error (find_child d key).
+Proof. exact interior_accessors_total_l. Qed.
+(* the binary search terminates within its 17 rounds on EVERY 16 KiB byte string and key ("never loops forever") *)
+Theorem find_child_terminates : forall d key, blen d = PAGE_SIZE -> bytes_ok d = true -> find_child d key <> Fuel.
 Proof. exact find_child_terminates_l. Qed.
-(* ... and returns a value or an error whenever the announced slot array fits the page *)
-Theorem find_child_total : forall d key, interior_from_page d = Ok tt -> bytes_ok d = true ->
-  interior_slots_fit d = true -> value_or_error (find_child d key).
-Proof. exact find_child_total_l. Qed.
-Theorem interior_accessors_refuted :
-  interior_from_page interior_witness_oob = Ok tt /\ bytes_ok interior_witness_oob = true /\
-  interior_slot_at interior_witness_oob 1364 = Panic /\ interior_key_at interior_witness_oob 1364 = Panic /\
-  interior_from_page interior_witness_search = Ok tt /\ bytes_ok interior_witness_search = true /\
-  find_child interior_witness_search [] = Panic /\ find_child interior_witness_search [255] = Panic.
-Proof. exact interior_accessors_refuted_l. Qed.
+Theorem interior_accessors_panic_iff_unchecked : forall d i, blen d = PAGE_SIZE -> bytes_ok d = true -> 0 <= i ->
+  (interior_slot_at d i = Panic <-> interior_slot_oob d i = true) /\ (interior_key_at d i = Panic <-> interior_slot_oob d i = true).
+Proof. exact interior_accessors_panic_iff_unchecked_l. Qed.
+Theorem interior_former_witnesses :
+  bytes_ok interior_witness_oob = true /\ interior_slot_at interior_witness_oob 1364 = Panic /\
+  interior_from_page interior_witness_oob = Err /\
+  bytes_ok interior_witness_search = true /\ find_child interior_witness_search [] = Panic /\
+  interior_from_page interior_witness_search = Err.
+Proof. exact interior_former_witnesses_l. Qed.
 
 (* ================================================================ HNSW node pages *)
-Theorem hnsw_header_readers_total : forall d, hnsw_from_bytes d = Ok tt ->
-  value_or_error (hnsw_slot_count d) /\ value_or_error (hnsw_free_space d).
-Proof. exact hnsw_total_l. Qed.
-Theorem hnsw_get_slot_panics_iff : forall d i, hnsw_from_bytes d = Ok tt -> bytes_ok d = true -> 0 <= i < 65536 ->
-  (hnsw_get_slot d i = Panic <-> hnsw_slot_oob d i = true).
-Proof. exact hnsw_get_slot_panic_iff_l. Qed.
-Theorem hnsw_read_node_data_panics_iff : forall d i, hnsw_from_bytes d = Ok tt -> bytes_ok d = true -> 0 <= i < 65536 ->
-  (hnsw_read_node_data d i = Panic <-> hnsw_slot_oob d i = true \/ hnsw_node_oob d i = true).
-Proof. exact hnsw_read_node_data_panic_iff_l. Qed.
 Theorem hnsw_readers_total : forall d i, hnsw_from_bytes d = Ok tt -> bytes_ok d = true -> 0 <= i < 65536 ->
-  hnsw_slot_oob d i = false ->
-  value_or_error (hnsw_get_slot d i) /\ (hnsw_node_oob d i = false -> value_or_error (hnsw_read_node_data d i)).
+  value_or_error (hnsw_slot_count d) /\ value_or_error (hnsw_free_space d) /\
+  value_or_error (hnsw_get_slot d i) /\ value_or_error (hnsw_read_node_data d i).
 Proof. exact hnsw_readers_total_l. Qed.
-Theorem hnsw_readers_refuted :
+Theorem hnsw_node_data_inside_page : forall d i v, blen d = PAGE_SIZE -> bytes_ok d = true -> 0 <= i < 65536 ->
+  hnsw_read_node_data d i = Ok v ->
+  exists off sz, 0 <= off /\ 0 <= sz /\ off + sz <= PAGE_SIZE /\ v = bslice d off (off + sz).
+Proof. exact hnsw_node_data_inside_l. Qed.
+Theorem hnsw_former_witnesses :
   hnsw_from_bytes hnsw_witness_slot = Ok tt /\ bytes_ok hnsw_witness_slot = true /\
-  hnsw_get_slot hnsw_witness_slot 4080 = Panic /\ hnsw_read_node_data hnsw_witness_slot 4080 = Panic /\
+  hnsw_get_slot hnsw_witness_slot 4080 = Ok None /\ hnsw_read_node_data hnsw_witness_slot 4080 = Err /\
   hnsw_from_bytes hnsw_witness_node = Ok tt /\ bytes_ok hnsw_witness_node = true /\
-  hnsw_get_slot hnsw_witness_node 0 = Ok (Some (8191, 1, 8194)) /\ hnsw_read_node_data hnsw_witness_node 0 = Panic.
-Proof. exact hnsw_readers_refuted_l. Qed.
+  hnsw_get_slot hnsw_witness_node 0 = Ok (Some (8191, 1, 8194)) /\ hnsw_read_node_data hnsw_witness_node 0 = Err.
+Proof. exact hnsw_former_witnesses_l. Qed.
 
 (* ================================================================ array views *)
-Theorem array_new_total : forall d, value_or_error (array_new d).
+Theorem array_new_total : forall d, bytes_ok d = true -> value_or_error (array_new d).
 Proof. exact array_new_total_l. Qed.
-Theorem array_elem_type_panics_iff : forall d, array_new d = Ok tt ->
-  (elem_type d = Panic <-> array_type_bad d = true).
-Proof. exact elem_type_panic_iff_l. Qed.
+(* every view new() returns: the type byte, the null bitmap and the element through the getter of its stored type *)
+Theorem array_view_total : forall d i, bytes_ok d = true -> array_new d = Ok tt -> 0 <= i ->
+  value_or_error (elem_type d) /\ value_or_error (is_null d i) /\ value_or_error (array_elem d i).
+Proof. exact array_view_total_l. Qed.
+(* what each (still unchecked) getter needs of the bytes *)
 Theorem array_is_null_total : forall d i, bytes_ok d = true -> wf_bitmap d = true -> 0 <= i ->
   value_or_error (is_null d i).
 Proof. exact is_null_total_l. Qed.
 Theorem array_get_fixed_total : forall d w i, bytes_ok d = true -> wf_fixed d (Z.of_nat w) = true -> 0 <= i ->
   value_or_error (get_fixed d w i).
 Proof. exact get_fixed_total_l. Qed.
-Theorem array_get_bool_total : forall d i, bytes_ok d = true -> wf_fixed d 1 = true -> 0 <= i ->
-  value_or_error (get_bool d i).
-Proof. exact get_bool_total_l. Qed.
 Theorem array_get_blob_text_total : forall d i, bytes_ok d = true -> wf_var d i = true -> 0 <= i ->
   value_or_error (get_blob d i) /\ value_or_error (get_text d i).
 Proof. exact get_blob_total_l. Qed.
-Theorem array_getters_refuted :
-  array_new [8;0;0;0;99;1;0;0] = Ok tt /\ elem_type [8;0;0;0;99;1;0;0] = Panic /\
-  array_new [8;0;0;0;2;1;1;0] = Ok tt /\ is_null [8;0;0;0;2;1;1;0] 0 = Panic /\
-  get_fixed [8;0;0;0;2;1;1;0] 4 0 = Panic /\ get_bool [8;0;0;0;2;1;1;0] 0 = Panic /\
-  array_new [0;0;0;0;21;1;1;0;0;0;0;0;0] = Ok tt /\ is_null [0;0;0;0;21;1;1;0;0;0;0;0;0] 0 = Ok false /\
-  get_blob [0;0;0;0;21;1;1;0;0;0;0;0;0] 0 = Panic /\ get_text [0;0;0;0;21;1;1;0;0;0;0;0;0] 0 = Panic /\
-  get_blob [13;0;0;0;21;1;1;0;0;9;0;0;0] 0 = Panic.
-Proof. exact array_getters_refuted_l. Qed.
+Theorem array_former_witnesses :
+  elem_type [8;0;0;0;99;1;0;0] = Panic /\ array_new [8;0;0;0;99;1;0;0] = Err /\
+  is_null [8;0;0;0;2;1;1;0] 0 = Panic /\ get_fixed [8;0;0;0;2;1;1;0] 4 0 = Panic /\ array_new [8;0;0;0;2;1;1;0] = Err /\
+  get_blob [0;0;0;0;21;1;1;0;0;0;0;0;0] 0 = Panic /\ array_new [0;0;0;0;21;1;1;0;0;0;0;0;0] = Err /\
+  get_blob [13;0;0;0;21;1;1;0;0;9;0;0;0] 0 = Panic /\ array_new [13;0;0;0;21;1;1;0;0;9;0;0;0] = Err /\
+  array_new [12;0;0;0;2;1;1;0;0;5;0;0;0] = Ok tt /\ array_elem [12;0;0;0;2;1;1;0;0;5;0;0;0] 0 = Ok (ENum 5) /\
+  array_new [15;0;0;0;21;1;1;0;0;0;0;0;0;104;105] = Ok tt /\
+  array_elem [15;0;0;0;21;1;1;0;0;0;0;0;0;104;105] 0 = Ok (EBytes [104; 105]).
+Proof. exact array_former_witnesses_l. Qed.
 
 (* ================================================================ row records (C31 model) *)
 (* RecordView::new accepts any 2 bytes; extract_row_from_record then panics on a record too short for its
@@ -194,15 +183,14 @@ Definition ex_interior : list Z :=
 Definition ex_hnsw : list Z :=
   image 16384 0 [(0, [16]); (16, [1; 0; 68; 0; 253; 63; 1; 0; 0; 0; 185; 63]); (64, [253; 63; 3; 0]); (8189, [7; 8; 9])].
 Example c23_witness :
-  leaf_from_page ex_leaf = Ok tt /\ bytes_ok ex_leaf = true /\ leaf_slots_fit ex_leaf = true /\
-  leaf_slot_oob ex_leaf 0 = false /\ leaf_value_ovf ex_leaf 0 = false /\
+  leaf_from_page ex_leaf = Ok tt /\ bytes_ok ex_leaf = true /\
   leaf_key_at ex_leaf 0 = Ok [107; 49] /\ leaf_value_at ex_leaf 0 = Ok [118] /\ leaf_key_at ex_leaf 1 = Err /\
-  interior_from_page ex_interior = Ok tt /\ bytes_ok ex_interior = true /\ interior_slots_fit ex_interior = true /\
+  interior_from_page ex_interior = Ok tt /\ bytes_ok ex_interior = true /\
   find_child ex_interior [107; 48] = Ok (7, 0) /\ find_child ex_interior [107; 50] = Ok (9, -1) /\
-  hnsw_from_bytes ex_hnsw = Ok tt /\ hnsw_slot_oob ex_hnsw 0 = false /\ hnsw_node_oob ex_hnsw 0 = false /\
+  hnsw_from_bytes ex_hnsw = Ok tt /\
   hnsw_read_node_data ex_hnsw 0 = Ok [7; 8; 9] /\ hnsw_read_node_data ex_hnsw 1 = Err /\
-  wf_fixed [12;0;0;0;2;1;1;0;0;5;0;0;0] 4 = true /\ get_fixed [12;0;0;0;2;1;1;0;0;5;0;0;0] 4 0 = Ok 5 /\
-  wf_var [15;0;0;0;21;1;1;0;0;0;0;0;0;104;105] 0 = true /\ get_text [15;0;0;0;21;1;1;0;0;0;0;0;0;104;105] 0 = Ok [104; 105] /\
+  array_new [12;0;0;0;2;1;1;0;0;5;0;0;0] = Ok tt /\ array_elem [12;0;0;0;2;1;1;0;0;5;0;0;0] 0 = Ok (ENum 5) /\
+  wf_fixed [12;0;0;0;2;1;1;0;0;5;0;0;0] 4 = true /\ wf_var [15;0;0;0;21;1;1;0;0;0;0;0;0;104;105] 0 = true /\
   meta_from_bytes (META_MAGIC ++ [1;0;0;0; 0;64;0;0] ++ repeat 0 104) = Ok [1; 16384; 0; 0; 0; 0; 0] /\
   meta_from_bytes (TABLE_MAGIC ++ [1;0;0;0; 0;64;0;0] ++ repeat 0 104) = Err.
 Proof. vm_compute. repeat split. Qed.
@@ -218,30 +206,24 @@ Check hnsw_header_accepts : forall d v, hnsw_file_from_bytes d = Ok v -> FILE_HE
 Check page_header_total : forall d, value_or_error (page_header d).
 Check validate_page_total : forall d, value_or_error (validate_page d).
 Check node_from_page_total : forall want d, value_or_error (node_from_page want d).
-Check leaf_slot_at_panics_iff : forall d i, leaf_from_page d = Ok tt -> bytes_ok d = true -> 0 <= i -> (leaf_slot_at d i = Panic <-> leaf_slot_oob d i = true).
-Check leaf_key_at_panics_iff : forall d i, leaf_from_page d = Ok tt -> bytes_ok d = true -> 0 <= i -> (leaf_key_at d i = Panic <-> leaf_slot_oob d i = true).
-Check leaf_value_len_at_panics_iff : forall d i, leaf_from_page d = Ok tt -> bytes_ok d = true -> 0 <= i -> (leaf_value_len_at d i = Panic <-> leaf_slot_oob d i = true).
-Check leaf_value_at_panics_iff : forall d i, leaf_from_page d = Ok tt -> bytes_ok d = true -> 0 <= i -> (leaf_value_at d i = Panic <-> leaf_slot_oob d i = true \/ leaf_value_ovf d i = true).
-Check leaf_accessors_total : forall d i, leaf_from_page d = Ok tt -> bytes_ok d = true -> 0 <= i -> leaf_slot_oob d i = false -> value_or_error (leaf_slot_at d i) /\ value_or_error (leaf_key_at d i) /\ value_or_error (leaf_value_len_at d i) /\ (leaf_value_ovf d i = false -> value_or_error (leaf_value_at d i)).
+Check btree_from_page_total : forall want cs ss d, value_or_error (btree_from_page want cs ss d).
+Check leaf_accessors_total : forall d i, leaf_from_page d = Ok tt -> bytes_ok d = true -> 0 <= i -> value_or_error (leaf_slot_at d i) /\ value_or_error (leaf_key_at d i) /\ value_or_error (leaf_value_len_at d i) /\ value_or_error (leaf_value_at d i).
 Check leaf_results_inside_page : forall d i, blen d = PAGE_SIZE -> bytes_ok d = true -> 0 <= i -> (forall k, leaf_key_at d i = Ok k -> exists lo len, 0 <= lo /\ 0 <= len /\ lo + len <= PAGE_SIZE /\ k = bslice d lo (lo + len)) /\ (forall v, leaf_value_at d i = Ok v -> exists lo len, 0 <= lo /\ 0 <= len /\ lo + len <= PAGE_SIZE /\ v = bslice d lo (lo + len)).
-Check leaf_accessors_refuted : leaf_from_page leaf_witness_oob = Ok tt /\ bytes_ok leaf_witness_oob = true /\ leaf_slot_at leaf_witness_oob 2045 = Panic /\ leaf_key_at leaf_witness_oob 2045 = Panic /\ leaf_value_at leaf_witness_oob 2045 = Panic /\ leaf_value_len_at leaf_witness_oob 2045 = Panic /\ leaf_from_page leaf_witness_ovf = Ok tt /\ bytes_ok leaf_witness_ovf = true /\ leaf_slot_oob leaf_witness_ovf 0 = false /\ leaf_key_at leaf_witness_ovf 0 = Ok [1; 2; 3; 4] /\ leaf_value_len_at leaf_witness_ovf 0 = Ok 18446744073709551615 /\ leaf_value_at leaf_witness_ovf 0 = Panic.
-Check interior_slot_at_panics_iff : forall d i, interior_from_page d = Ok tt -> bytes_ok d = true -> 0 <= i -> (interior_slot_at d i = Panic <-> interior_slot_oob d i = true).
-Check interior_key_at_panics_iff : forall d i, interior_from_page d = Ok tt -> bytes_ok d = true -> 0 <= i -> (interior_key_at d i = Panic <-> interior_slot_oob d i = true).
-Check find_child_terminates : forall d key, interior_from_page d = Ok tt -> bytes_ok d = true -> find_child d key <> Fuel.
-Check find_child_total : forall d key, interior_from_page d = Ok tt -> bytes_ok d = true -> interior_slots_fit d = true -> value_or_error (find_child d key).
-Check interior_accessors_refuted : interior_from_page interior_witness_oob = Ok tt /\ bytes_ok interior_witness_oob = true /\ interior_slot_at interior_witness_oob 1364 = Panic /\ interior_key_at interior_witness_oob 1364 = Panic /\ interior_from_page interior_witness_search = Ok tt /\ bytes_ok interior_witness_search = true /\ find_child interior_witness_search [] = Panic /\ find_child interior_witness_search [255] = Panic.
-Check hnsw_header_readers_total : forall d, hnsw_from_bytes d = Ok tt -> value_or_error (hnsw_slot_count d) /\ value_or_error (hnsw_free_space d).
-Check hnsw_get_slot_panics_iff : forall d i, hnsw_from_bytes d = Ok tt -> bytes_ok d = true -> 0 <= i < 65536 -> (hnsw_get_slot d i = Panic <-> hnsw_slot_oob d i = true).
-Check hnsw_read_node_data_panics_iff : forall d i, hnsw_from_bytes d = Ok tt -> bytes_ok d = true -> 0 <= i < 65536 -> (hnsw_read_node_data d i = Panic <-> hnsw_slot_oob d i = true \/ hnsw_node_oob d i = true).
-Check hnsw_readers_total : forall d i, hnsw_from_bytes d = Ok tt -> bytes_ok d = true -> 0 <= i < 65536 -> hnsw_slot_oob d i = false -> value_or_error (hnsw_get_slot d i) /\ (hnsw_node_oob d i = false -> value_or_error (hnsw_read_node_data d i)).
-Check hnsw_readers_refuted : hnsw_from_bytes hnsw_witness_slot = Ok tt /\ bytes_ok hnsw_witness_slot = true /\ hnsw_get_slot hnsw_witness_slot 4080 = Panic /\ hnsw_read_node_data hnsw_witness_slot 4080 = Panic /\ hnsw_from_bytes hnsw_witness_node = Ok tt /\ bytes_ok hnsw_witness_node = true /\ hnsw_get_slot hnsw_witness_node 0 = Ok (Some (8191, 1, 8194)) /\ hnsw_read_node_data hnsw_witness_node 0 = Panic.
-Check array_new_total : forall d, value_or_error (array_new d).
-Check array_elem_type_panics_iff : forall d, array_new d = Ok tt -> (elem_type d = Panic <-> array_type_bad d = true).
+Check leaf_accessors_panic_iff_unchecked : forall d i, blen d = PAGE_SIZE -> bytes_ok d = true -> 0 <= i -> (leaf_slot_at d i = Panic <-> leaf_slot_oob d i = true) /\ (leaf_key_at d i = Panic <-> leaf_slot_oob d i = true) /\ (leaf_value_len_at d i = Panic <-> leaf_slot_oob d i = true) /\ (leaf_value_at d i = Panic <-> leaf_slot_oob d i = true).
+Check leaf_former_witnesses : bytes_ok leaf_witness_oob = true /\ leaf_slot_at leaf_witness_oob 2045 = Panic /\ leaf_from_page leaf_witness_oob = Err /\ leaf_from_page leaf_witness_ovf = Ok tt /\ bytes_ok leaf_witness_ovf = true /\ leaf_key_at leaf_witness_ovf 0 = Ok [1; 2; 3; 4] /\ leaf_value_len_at leaf_witness_ovf 0 = Ok 18446744073709551615 /\ leaf_value_at leaf_witness_ovf 0 = Err.
+Check interior_accessors_total : forall d i key, interior_from_page d = Ok tt -> bytes_ok d = true -> 0 <= i -> value_or_error (interior_slot_at d i) /\ value_or_error (interior_key_at d i) /\ value_or_error (find_child d key).
+Check find_child_terminates : forall d key, blen d = PAGE_SIZE -> bytes_ok d = true -> find_child d key <> Fuel.
+Check interior_accessors_panic_iff_unchecked : forall d i, blen d = PAGE_SIZE -> bytes_ok d = true -> 0 <= i -> (interior_slot_at d i = Panic <-> interior_slot_oob d i = true) /\ (interior_key_at d i = Panic <-> interior_slot_oob d i = true).
+Check interior_former_witnesses : bytes_ok interior_witness_oob = true /\ interior_slot_at interior_witness_oob 1364 = Panic /\ interior_from_page interior_witness_oob = Err /\ bytes_ok interior_witness_search = true /\ find_child interior_witness_search [] = Panic /\ interior_from_page interior_witness_search = Err.
+Check hnsw_readers_total : forall d i, hnsw_from_bytes d = Ok tt -> bytes_ok d = true -> 0 <= i < 65536 -> value_or_error (hnsw_slot_count d) /\ value_or_error (hnsw_free_space d) /\ value_or_error (hnsw_get_slot d i) /\ value_or_error (hnsw_read_node_data d i).
+Check hnsw_node_data_inside_page : forall d i v, blen d = PAGE_SIZE -> bytes_ok d = true -> 0 <= i < 65536 -> hnsw_read_node_data d i = Ok v -> exists off sz, 0 <= off /\ 0 <= sz /\ off + sz <= PAGE_SIZE /\ v = bslice d off (off + sz).
+Check hnsw_former_witnesses : hnsw_from_bytes hnsw_witness_slot = Ok tt /\ bytes_ok hnsw_witness_slot = true /\ hnsw_get_slot hnsw_witness_slot 4080 = Ok None /\ hnsw_read_node_data hnsw_witness_slot 4080 = Err /\ hnsw_from_bytes hnsw_witness_node = Ok tt /\ bytes_ok hnsw_witness_node = true /\ hnsw_get_slot hnsw_witness_node 0 = Ok (Some (8191, 1, 8194)) /\ hnsw_read_node_data hnsw_witness_node 0 = Err.
+Check array_new_total : forall d, bytes_ok d = true -> value_or_error (array_new d).
+Check array_view_total : forall d i, bytes_ok d = true -> array_new d = Ok tt -> 0 <= i -> value_or_error (elem_type d) /\ value_or_error (is_null d i) /\ value_or_error (array_elem d i).
 Check array_is_null_total : forall d i, bytes_ok d = true -> wf_bitmap d = true -> 0 <= i -> value_or_error (is_null d i).
 Check array_get_fixed_total : forall d w i, bytes_ok d = true -> wf_fixed d (Z.of_nat w) = true -> 0 <= i -> value_or_error (get_fixed d w i).
-Check array_get_bool_total : forall d i, bytes_ok d = true -> wf_fixed d 1 = true -> 0 <= i -> value_or_error (get_bool d i).
 Check array_get_blob_text_total : forall d i, bytes_ok d = true -> wf_var d i = true -> 0 <= i -> value_or_error (get_blob d i) /\ value_or_error (get_text d i).
-Check array_getters_refuted : array_new [8;0;0;0;99;1;0;0] = Ok tt /\ elem_type [8;0;0;0;99;1;0;0] = Panic /\ array_new [8;0;0;0;2;1;1;0] = Ok tt /\ is_null [8;0;0;0;2;1;1;0] 0 = Panic /\ get_fixed [8;0;0;0;2;1;1;0] 4 0 = Panic /\ get_bool [8;0;0;0;2;1;1;0] 0 = Panic /\ array_new [0;0;0;0;21;1;1;0;0;0;0;0;0] = Ok tt /\ is_null [0;0;0;0;21;1;1;0;0;0;0;0;0] 0 = Ok false /\ get_blob [0;0;0;0;21;1;1;0;0;0;0;0;0] 0 = Panic /\ get_text [0;0;0;0;21;1;1;0;0;0;0;0;0] 0 = Panic /\ get_blob [13;0;0;0;21;1;1;0;0;9;0;0;0] 0 = Panic.
+Check array_former_witnesses : elem_type [8;0;0;0;99;1;0;0] = Panic /\ array_new [8;0;0;0;99;1;0;0] = Err /\ is_null [8;0;0;0;2;1;1;0] 0 = Panic /\ get_fixed [8;0;0;0;2;1;1;0] 4 0 = Panic /\ array_new [8;0;0;0;2;1;1;0] = Err /\ get_blob [0;0;0;0;21;1;1;0;0;0;0;0;0] 0 = Panic /\ array_new [0;0;0;0;21;1;1;0;0;0;0;0;0] = Err /\ get_blob [13;0;0;0;21;1;1;0;0;9;0;0;0] 0 = Panic /\ array_new [13;0;0;0;21;1;1;0;0;9;0;0;0] = Err /\ array_new [12;0;0;0;2;1;1;0;0;5;0;0;0] = Ok tt /\ array_elem [12;0;0;0;2;1;1;0;0;5;0;0;0] 0 = Ok (ENum 5) /\ array_new [15;0;0;0;21;1;1;0;0;0;0;0;0;104;105] = Ok tt /\ array_elem [15;0;0;0;21;1;1;0;0;0;0;0;0;104;105] 0 = Ok (EBytes [104; 105]).
 Check record_view_refuted : Record.view_new [2; 0] = Record.Ok tt /\ Record.extract [Record.TText] [2; 0] = Record.Panic /\ Record.extract [Record.TInt4; Record.TText] [5; 0; 0; 9; 0; 1; 2; 3; 4] = Record.Panic /\ Record.extract [Record.TInt4; Record.TText] [5; 0; 0; 0; 0; 1; 2; 3; 4] = Record.Ok [Record.VInt 67305985; Record.VText []] /\ Record.extract [Record.TInt4] [4; 0] = Record.Ok [Record.VNull].
 Check varint_decode_total : forall buf, bytes_ok buf = true -> decode_varint_safe buf = true.
 Check varint_decode_inside : forall buf v n, bytes_ok buf = true -> decode_varint buf = Some (v, n) -> 1 <= n <= blen buf /\ 0 <= v < 2 ^ 64.
@@ -259,30 +241,24 @@ Print Assumptions hnsw_header_accepts.
 Print Assumptions page_header_total.
 Print Assumptions validate_page_total.
 Print Assumptions node_from_page_total.
-Print Assumptions leaf_slot_at_panics_iff.
-Print Assumptions leaf_key_at_panics_iff.
-Print Assumptions leaf_value_len_at_panics_iff.
-Print Assumptions leaf_value_at_panics_iff.
+Print Assumptions btree_from_page_total.
 Print Assumptions leaf_accessors_total.
 Print Assumptions leaf_results_inside_page.
-Print Assumptions leaf_accessors_refuted.
-Print Assumptions interior_slot_at_panics_iff.
-Print Assumptions interior_key_at_panics_iff.
+Print Assumptions leaf_accessors_panic_iff_unchecked.
+Print Assumptions leaf_former_witnesses.
+Print Assumptions interior_accessors_total.
 Print Assumptions find_child_terminates.
-Print Assumptions find_child_total.
-Print Assumptions interior_accessors_refuted.
-Print Assumptions hnsw_header_readers_total.
-Print Assumptions hnsw_get_slot_panics_iff.
-Print Assumptions hnsw_read_node_data_panics_iff.
+Print Assumptions interior_accessors_panic_iff_unchecked.
+Print Assumptions interior_former_witnesses.
 Print Assumptions hnsw_readers_total.
-Print Assumptions hnsw_readers_refuted.
+Print Assumptions hnsw_node_data_inside_page.
+Print Assumptions hnsw_former_witnesses.
 Print Assumptions array_new_total.
-Print Assumptions array_elem_type_panics_iff.
+Print Assumptions array_view_total.
 Print Assumptions array_is_null_total.
 Print Assumptions array_get_fixed_total.
-Print Assumptions array_get_bool_total.
 Print Assumptions array_get_blob_text_total.
-Print Assumptions array_getters_refuted.
+Print Assumptions array_former_witnesses.
 Print Assumptions record_view_refuted.
 Print Assumptions varint_decode_total.
 Print Assumptions varint_decode_inside.
